@@ -152,7 +152,8 @@ def run(tier, seed=0, shard=(0, 1)):
     boxes += [Box('g', x, y), Box('w', Ty(), x ** 4)]
     doms = [Ty(), x, x @ x, x @ x @ x]
     rep = Report({'max_boxes': max_boxes, 'max_width': 5, 'boxes': [repr(b) for b in boxes], 'doms': [repr(t) for t in doms],
-                  'render': 'every %dth diagram on both back-ends (Agg, TikZ to a scratch file)' % (120 if tier == 'quick' else 25)})
+                  'render': 'every %dth diagram on both back-ends (Agg, TikZ to a scratch file)' % (120 if tier == 'quick' else 25),
+                  'mixed_types': 'boxes of every arity 0..3 -> 0..3 over three wire types, alone / between wires / followed by their dagger, laid out and rendered'})
     tmp = tempfile.mkdtemp(prefix='c20_')
     try:
         for idx, d in enumerate(common.gen_diagrams(doms, boxes, max_boxes, max_width=5)):
@@ -169,6 +170,17 @@ def run(tier, seed=0, shard=(0, 1)):
             extra = [f @ Id(x @ x) >> Id(x @ x) @ s4 @ Id(x), Id(x @ x) @ f >> Id(x) @ s4 @ Id(x @ x),
                      Id(x) @ f @ Id(x) >> s4 @ Id(x ** 3) >> Id(x ** 7) @ s4, f @ f >> Id(x) @ s4 @ Id(x) >> f @ Id(x ** 5)]
             for d in extra:
+                check_layout(rep, d)
+                check_render(rep, d, tmp)
+        # boxes of every arity 0..3 -> 0..3 whose wires all have different types (scalars, states, effects included),
+        # alone and between two wires: laid out and rendered on both back-ends
+        z = Ty('z')
+        kinds = [(n, m) for n in range(4) for m in range(4)]
+        for k, (n, m) in enumerate(kinds):
+            if k % shard[1] != shard[0]:
+                continue
+            b = Box('b%d%d' % (n, m), (x @ y @ z)[:n], (z @ x @ y)[:m])
+            for d in (b, Id(y) @ b @ Id(x), Id(y) @ b @ Id(x) >> Id(y) @ b.dagger() @ Id(x)):
                 check_layout(rep, d)
                 check_render(rep, d, tmp)
     finally:
